@@ -151,6 +151,40 @@ func RunOne(scn Scenario, tmpl, dir string, tr int, seed int64, choices []string
 		}
 		return nil
 	}
+	// a notification whose watcher goroutine has not reached its first storage call yet (it may be waiting for a mutex that a
+	// request holds): it is adopted as a proc whenever it arrives
+	outstanding := func() bool {
+		for _, e := range envs {
+			if e.fired && !e.done && e.bg == nil {
+				return true
+			}
+		}
+		return false
+	}
+	adopt := func(d time.Duration) (bool, error) {
+		if !outstanding() {
+			return false, nil
+		}
+		select {
+		case bp := <-w.Ctl.BgArrived:
+			for _, e := range envs {
+				if e.fired && !e.done && e.bg == nil {
+					e.bg = bp
+					break
+				}
+			}
+			procs[bp.Name] = bp
+			order = append(order, bp.Name)
+			if _, _, lk, err := w.Ctl.AwaitL(bp, wait); err != nil {
+				return false, err
+			} else if lk {
+				lockBlocked[bp.Name] = true
+			}
+			return true, nil
+		case <-time.After(d):
+			return false, nil
+		}
+	}
 	pendingOf := func(p *sched.Proc) string { return p.Pending }
 	cur := map[string]string{}
 	for k, v := range sleep {
@@ -159,6 +193,10 @@ func RunOne(scn Scenario, tmpl, dir string, tr int, seed int64, choices []string
 	step := 0
 	settle := 0
 	for {
+		if _, err := adopt(0); err != nil {
+			res.Err = err
+			return
+		}
 		// procs that were waiting for a lock may have reached a call boundary by now
 		for _, name := range order {
 			if lockBlocked[name] {
@@ -190,6 +228,23 @@ func RunOne(scn Scenario, tmpl, dir string, tr int, seed int64, choices []string
 			}
 		}
 		if len(enabled) == 0 {
+			if outstanding() {
+				// the watcher of a fired notification is still on its way (it was waiting for a mutex, or is just slow)
+				if got, err := adopt(2 * time.Second); err != nil {
+					res.Err = err
+					return
+				} else if got {
+					continue
+				}
+				// it never arrives: the notification found nothing to do
+				for _, e := range envs {
+					if e.fired && !e.done && e.bg == nil {
+						e.done = true
+						w.EmitSpan("notify", map[string]any{"q": e.op.Q, "fired": 1}, map[string]any{"ok": true}, e.c, w.Tick(), e.name)
+					}
+				}
+				continue
+			}
 			if len(lockBlocked) > 0 {
 				// nothing can move: either a real deadlock, or a proc that was only briefly waiting
 				// (for a lock of the harness or the driver) when it was classified. Give it time.
@@ -214,6 +269,15 @@ func RunOne(scn Scenario, tmpl, dir string, tr int, seed int64, choices []string
 				}
 			}
 			if !found {
+				// a watcher that arrived earlier in the recorded run may still be on its way in this one
+				if _, ok := procs[chosen]; !ok && outstanding() && settle < 40 {
+					settle++
+					if _, err := adopt(500 * time.Millisecond); err != nil {
+						res.Err = err
+						return
+					}
+					continue
+				}
 				// the proc may be about to arrive (it was briefly waiting for a harness lock): wait for it
 				if p, ok := procs[chosen]; ok && !p.Done && settle < 40 {
 					settle++
@@ -296,20 +360,11 @@ func RunOne(scn Scenario, tmpl, dir string, tr int, seed int64, choices []string
 					n = w.Net.Notify(q.Hash)
 				}
 				if n > 0 {
-					select {
-					case bp := <-w.Ctl.BgArrived:
-						e.bg = bp
-						procs[bp.Name] = bp
-						order = append(order, bp.Name)
-						if _, _, lk, err := w.Ctl.AwaitL(bp, wait); err != nil {
-							res.Err = err
-							return
-						} else if lk {
-							lockBlocked[bp.Name] = true
-						}
-					case <-time.After(2 * time.Second):
-						e.done = true
-						w.EmitSpan("notify", map[string]any{"q": e.op.Q, "fired": n}, map[string]any{"ok": true}, e.c, w.Tick(), e.name)
+					// normally the watcher reaches its first storage call at once; if a request holds the mutex it needs, it
+					// arrives when that request lets go (adopted then)
+					if _, err := adopt(40 * time.Millisecond); err != nil {
+						res.Err = err
+						return
 					}
 				} else {
 					e.done = true
